@@ -35,136 +35,200 @@ Section OwnProofs.
 
   Definition incs0 (p : bpc) : Prop := p = BHave \/ p = BUnlock \/ p = BFinal.
   Definition incs1 (p : bpc) : Prop := p = BHave \/ (exists n, p = BTaken n) \/ p = BUnlock.
+  Definition after_input (p : bpc) : Prop := p = BFinal \/ p = BClose \/ p = BDone.
+
+  (* the batched bytes are consistent with the expected stream E *)
+  Definition okbuf (sh : bsh) (E : list byte) : Prop :=
+    (b_pos sh <= length (b_buf sh))%nat /\ b_out sh ++ firstn (b_pos sh) (b_buf sh) = E.
+  Definition same_rest (sh' sh : bsh) : Prop :=
+    b_seen sh' = b_seen sh /\ b_inq sh' = b_inq sh /\ b_lock sh' = b_lock sh /\ b_cw sh' = b_cw sh /\ b_werr sh' = b_werr sh.
+
+  Lemma flush_locked_ok sh E : b_cw sh = false -> okbuf sh E ->
+    okbuf (flush_locked sh) E /\ b_pos (flush_locked sh) = 0%nat /\ same_rest (flush_locked sh) sh.
+  Proof.
+    intros Hc [Hp Ho]. unfold flush_locked. rewrite Hc, andb_false_r. unfold okbuf, same_rest.
+    cbn [bset b_pos b_buf b_out b_seen b_inq b_lock b_cw b_werr firstn]. rewrite app_nil_r.
+    repeat split; try reflexivity; [lia|exact Ho].
+  Qed.
+
+  Lemma write_n_ok n sh : b_cw sh = false \/ n = 0%nat ->
+    write_n n sh = bset sh (b_buf sh) (b_pos sh) (b_lock sh) (b_out sh ++ firstn n (b_buf sh)) (b_inq sh) (b_seen sh).
+  Proof.
+    intros [Hc| ->]; unfold write_n; [rewrite Hc, andb_false_r; reflexivity|reflexivity].
+  Qed.
 
   Definition OInv (s : st bsh (nat * bpc)) : Prop :=
     exists p0 p1, snd s = [(0%nat, p0); (1%nat, p1)] /\
-      (b_pos (fst s) <= length (b_buf (fst s)))%nat /\
-      b_out (fst s) ++ firstn (b_pos (fst s)) (b_buf (fst s)) = encq (b_seen (fst s)) /\
+      okbuf (fst s) (encq (b_seen (fst s))) /\
       all = b_seen (fst s) ++ b_inq (fst s) /\
       (incs0 p0 -> b_lock (fst s) = Some 0%nat) /\ (incs1 p1 -> b_lock (fst s) = Some 1%nat) /\
       (forall n, p1 = BTaken n -> n = b_pos (fst s)) /\
-      (p0 = BFinal \/ p0 = BDone -> b_inq (fst s) = [] /\ b_pos (fst s) = 0%nat).
+      (after_input p0 -> b_inq (fst s) = [] /\ b_pos (fst s) = 0%nat) /\
+      (* the tunnel is half-closed only once the main loop is completely done, and no Write was ever refused *)
+      (b_cw (fst s) = true -> p0 = BDone) /\ b_werr (fst s) = false.
 
   Lemma OInv_intro sh p0 p1 :
-    (b_pos sh <= length (b_buf sh))%nat ->
-    b_out sh ++ firstn (b_pos sh) (b_buf sh) = encq (b_seen sh) ->
+    okbuf sh (encq (b_seen sh)) ->
     all = b_seen sh ++ b_inq sh ->
     (incs0 p0 -> b_lock sh = Some 0%nat) -> (incs1 p1 -> b_lock sh = Some 1%nat) ->
     (forall n, p1 = BTaken n -> n = b_pos sh) ->
-    (p0 = BFinal \/ p0 = BDone -> b_inq sh = [] /\ b_pos sh = 0%nat) ->
+    (after_input p0 -> b_inq sh = [] /\ b_pos sh = 0%nat) ->
+    (b_cw sh = true -> p0 = BDone) -> b_werr sh = false ->
     OInv (sh, [(0%nat, p0); (1%nat, p1)]).
   Proof.
-    intros H1 H2 H3 H4 H5 H6 H7. exists p0, p1. cbn [fst snd]. split; [reflexivity|].
-    split; [exact H1|]. split; [exact H2|]. split; [exact H3|]. split; [exact H4|]. split; [exact H5|].
-    split; [exact H6|exact H7].
+    intros H2 H3 H4 H5 H6 H7 H8 H9. exists p0, p1. cbn [fst snd]. split; [reflexivity|].
+    split; [exact H2|]. split; [exact H3|]. split; [exact H4|]. split; [exact H5|].
+    split; [exact H6|]. split; [exact H7|]. split; [exact H8|exact H9].
   Qed.
 
   (* framing one datagram under the lock *)
-  Lemma frame_one_inv d sh :
-    (b_pos sh <= length (b_buf sh))%nat ->
-    b_out sh ++ firstn (b_pos sh) (b_buf sh) = encq (b_seen sh) ->
-    let sh' := frame_one BatchBuf d sh in
-    (b_pos sh' <= length (b_buf sh'))%nat /\
-    b_out sh' ++ firstn (b_pos sh') (b_buf sh') = encq (b_seen sh ++ [d]) /\
-    b_seen sh' = b_seen sh ++ [d] /\ b_inq sh' = tl (b_inq sh) /\ b_lock sh' = b_lock sh.
+  Lemma same_rest_refl sh : same_rest sh sh.
+  Proof. unfold same_rest. auto. Qed.
+
+  Lemma pre_flush_ok d sh E : b_cw sh = false -> okbuf sh E ->
+    okbuf (pre_flush BatchBuf d sh) E /\ same_rest (pre_flush BatchBuf d sh) sh.
   Proof.
-    intros Hp Ho. rewrite encq_app. unfold encq at 2. cbn [flat_map]. rewrite app_nil_r.
+    intros Hc Hok. unfold pre_flush. destruct (BatchBuf <? b_pos sh + (2 + length d))%nat.
+    - destruct (flush_locked_ok sh E Hc Hok) as (Ha & _ & Hb). auto.
+    - split; [exact Hok|apply same_rest_refl].
+  Qed.
+
+  Lemma post_flush_ok sh E : b_cw sh = false -> okbuf sh E ->
+    okbuf (post_flush BatchBuf sh) E /\ same_rest (post_flush BatchBuf sh) sh.
+  Proof.
+    intros Hc Hok. unfold post_flush. destruct (BatchBuf / 2 <? b_pos sh)%nat.
+    - destruct (flush_locked_ok sh E Hc Hok) as (Ha & _ & Hb). auto.
+    - split; [exact Hok|apply same_rest_refl].
+  Qed.
+
+  Lemma put_dgram_ok d sh E : okbuf sh E ->
+    okbuf (put_dgram d sh) (E ++ enc_dgram d) /\
+    b_seen (put_dgram d sh) = b_seen sh ++ [d] /\ b_inq (put_dgram d sh) = tl (b_inq sh) /\
+    b_lock (put_dgram d sh) = b_lock sh /\ b_cw (put_dgram d sh) = b_cw sh /\ b_werr (put_dgram d sh) = b_werr sh.
+  Proof.
+    intros [Hp Ho]. unfold put_dgram, okbuf. cbn [bset b_pos b_buf b_out b_seen b_inq b_lock b_cw b_werr].
+    assert (Hel : length (enc_dgram d) = (2 + length d)%nat) by reflexivity.
+    pose proof (store_firstn (b_pos sh) (enc_dgram d) (b_buf sh) Hp) as Hs.
+    pose proof (store_length (b_pos sh) (enc_dgram d) (b_buf sh) Hp) as Hsl.
+    rewrite Hel in Hs, Hsl. split; [split; [exact Hsl|]|].
+    - rewrite Hs, app_assoc, Ho. reflexivity.
+    - repeat split; reflexivity.
+  Qed.
+
+  Lemma frame_one_inv d sh : b_cw sh = false ->
+    okbuf sh (encq (b_seen sh)) ->
+    okbuf (frame_one BatchBuf d sh) (encq (b_seen sh ++ [d])) /\
+    b_seen (frame_one BatchBuf d sh) = b_seen sh ++ [d] /\ b_inq (frame_one BatchBuf d sh) = tl (b_inq sh) /\
+    b_lock (frame_one BatchBuf d sh) = b_lock sh /\
+    b_cw (frame_one BatchBuf d sh) = false /\ b_werr (frame_one BatchBuf d sh) = b_werr sh.
+  Proof.
+    intros Hc Hok. rewrite encq_app. unfold encq at 2. cbn [flat_map]. rewrite app_nil_r.
     unfold frame_one. destruct d as [|x d].
-    - cbn [bset b_pos b_buf b_out b_seen b_inq b_lock enc_ne]. rewrite app_nil_r. auto.
-    - set (dd := x :: d). cbn [enc_ne]. fold dd.
-      assert (Hel : length (enc_dgram dd) = (2 + length dd)%nat) by reflexivity.
-      destruct (BatchBuf <? b_pos sh + (2 + length dd))%nat.
-      + (* flush first: the buffer restarts at 0 *)
-        assert (H0 : (0 <= length (b_buf sh))%nat) by lia.
-        pose proof (store_firstn 0 (enc_dgram dd) (b_buf sh) H0) as Hs. cbn [firstn app plus] in Hs.
-        pose proof (store_length 0 (enc_dgram dd) (b_buf sh) H0) as Hsl. cbn [plus] in Hsl.
-        rewrite Hel in Hs, Hsl.
-        destruct (BatchBuf / 2 <? 0 + (2 + length dd))%nat;
-          cbn [bset b_pos b_buf b_out b_seen b_inq b_lock].
-        * cbn [plus] in *. rewrite Hs. cbn [firstn]. rewrite app_nil_r, <- Ho. split; [lia|]. auto.
-        * cbn [plus] in *. rewrite Hs, <- Ho. split; [lia|]. auto.
-      + pose proof (store_firstn (b_pos sh) (enc_dgram dd) (b_buf sh) Hp) as Hs.
-        pose proof (store_length (b_pos sh) (enc_dgram dd) (b_buf sh) Hp) as Hsl.
-        rewrite Hel in Hs, Hsl.
-        destruct (BatchBuf / 2 <? b_pos sh + (2 + length dd))%nat;
-          cbn [bset b_pos b_buf b_out b_seen b_inq b_lock].
-        * rewrite Hs. cbn [firstn]. rewrite app_nil_r. rewrite <- Ho. rewrite <- app_assoc. split; [lia|]. auto.
-        * rewrite Hs. rewrite <- Ho. rewrite <- app_assoc. split; [lia|]. auto.
+    - destruct Hok as [Hp Ho]. unfold okbuf.
+      cbn [bset b_pos b_buf b_out b_seen b_inq b_lock b_cw b_werr enc_ne]. rewrite app_nil_r.
+      split; [split; [exact Hp|exact Ho]|]. split; [reflexivity|]. split; [reflexivity|]. split; [reflexivity|].
+      split; [exact Hc|reflexivity].
+    - set (dd := x :: d). change (enc_ne dd) with (enc_dgram dd).
+      destruct (pre_flush_ok dd sh _ Hc Hok) as (A1 & (S1 & I1 & L1 & C1 & E1)).
+      destruct (put_dgram_ok dd (pre_flush BatchBuf dd sh) _ A1) as (A2 & S2 & I2 & L2 & C2 & E2).
+      assert (Hc2 : b_cw (put_dgram dd (pre_flush BatchBuf dd sh)) = false) by congruence.
+      destruct (post_flush_ok (put_dgram dd (pre_flush BatchBuf dd sh)) _ Hc2 A2) as (A3 & (S3 & I3 & L3 & C3 & E3)).
+      split; [exact A3|]. rewrite S3, I3, L3, C3, E3, S2, I2, L2, E2, S1, I1, L1, E1.
+      repeat split; try reflexivity. exact Hc2.
   Qed.
 
   Ltac no0 := let Hx := fresh in intros [Hx|[Hx|Hx]]; discriminate Hx.
   Ltac no1 := let Hx := fresh in let n := fresh in intros [Hx|[[n Hx]|Hx]]; discriminate Hx.
   Ltac noT := let Hx := fresh in let n := fresh in intros n Hx; discriminate Hx.
-  Ltac noF := let Hx := fresh in intros [Hx|Hx]; discriminate Hx.
-  Ltac proj_all := cbn [bset b_pos b_buf b_out b_seen b_inq b_lock].
+  Ltac noA := let Hx := fresh in intros [Hx|[Hx|Hx]]; discriminate Hx.
+  Ltac proj_all := cbn [bset bflags b_pos b_buf b_out b_seen b_inq b_lock b_cw b_werr].
 
-  Theorem OInv_step : forall s i, OInv s -> OInv (sys_step bsh (nat * bpc) (own_step false BatchBuf) s i).
+  Theorem OInv_step : forall s i,
+    OInv s -> OInv (sys_step bsh (nat * bpc) (own_step false false BatchBuf) s i).
   Proof.
-    intros [sh ls] i (p0 & p1 & Hls & H1 & H2 & H3 & H4 & H5 & H6 & H7). cbn [fst snd] in *. subst ls.
+    intros [sh ls] i (p0 & p1 & Hls & H2 & H3 & H4 & H5 & H6 & H7 & H8 & H9). cbn [fst snd] in *. subst ls.
     unfold sys_step. cbn [snd fst].
     destruct i as [|[|i]]; cbn [nth_error].
     - (* main loop *)
-      unfold own_step. cbn [fst snd]. unfold main_own.
+      unfold own_step. cbn [fst snd]. unfold main_own. cbn [andb].
       destruct p0; cbn [upd_nth].
       + (* BIdle: batchMu.Lock() *)
         destruct (b_lock sh) eqn:El; cbn [fst snd].
         * apply OInv_intro; try assumption; rewrite El; assumption.
-        * apply OInv_intro; proj_all;
-            [exact H1 | exact H2 | exact H3 | intros _; reflexivity
-            | intros Hc; specialize (H5 Hc); congruence | exact H6 | noF].
+        * apply OInv_intro; unfold okbuf in *; proj_all;
+            [exact H2 | exact H3 | intros _; reflexivity
+            | intros Hc; specialize (H5 Hc); congruence | exact H6 | noA
+            | intros Hc; specialize (H8 Hc); discriminate H8 | exact H9].
       + (* BHave: inside the critical section *)
         assert (Hl : b_lock sh = Some 0%nat) by (apply H4; left; reflexivity).
         assert (Hn1 : ~ incs1 p1) by (intros Hc; specialize (H5 Hc); congruence).
+        assert (Hcw : b_cw sh = false) by (destruct (b_cw sh); [specialize (H8 eq_refl); discriminate H8|reflexivity]).
         destruct (b_inq sh) as [|d q] eqn:Eq; cbn [fst snd].
-        * apply OInv_intro; proj_all;
-            [ lia | cbn [firstn]; rewrite app_nil_r; exact H2 | rewrite H3; reflexivity
-            | intros _; exact Hl | intros Hc; contradiction
-            | intros n Hc; exfalso; apply Hn1; right; left; now exists n
-            | intros _; split; reflexivity ].
-        * destruct (frame_one_inv d sh H1 H2) as (F1 & F2 & F3 & F4 & F5).
+        * destruct (flush_locked_ok sh _ Hcw H2) as (F1 & F2 & (F3 & F4 & F5 & F6 & F7)).
           apply OInv_intro;
-            [ exact F1 | rewrite F3; exact F2
+            [ rewrite F3; exact F1 | rewrite F3, F4; exact H3
+            | intros _; rewrite F5; exact Hl | intros Hc; contradiction
+            | intros n Hc; exfalso; apply Hn1; right; left; now exists n
+            | intros _; rewrite F4; split; [exact Eq|exact F2]
+            | intros Hc; rewrite F6 in Hc; congruence | rewrite F7; exact H9 ].
+        * destruct (frame_one_inv d sh Hcw H2) as (F1 & F3 & F4 & F5 & F6 & F7).
+          apply OInv_intro;
+            [ rewrite F3; exact F1
             | rewrite F3, F4, Eq; cbn [tl]; rewrite H3, <- app_assoc; reflexivity
             | intros _; rewrite F5; exact Hl | intros Hc; contradiction
-            | intros n Hc; exfalso; apply Hn1; right; left; now exists n | noF ].
+            | intros n Hc; exfalso; apply Hn1; right; left; now exists n | noA
+            | intros Hc; congruence | rewrite F7; exact H9 ].
       + cbn [fst snd]. apply OInv_intro; assumption.
       + (* BUnlock *)
         assert (Hl : b_lock sh = Some 0%nat) by (apply H4; right; left; reflexivity).
         assert (Hn1 : ~ incs1 p1) by (intros Hc; specialize (H5 Hc); congruence).
-        cbn [fst snd]. apply OInv_intro; proj_all;
-          [exact H1 | exact H2 | exact H3 | no0 | intros Hc; contradiction | exact H6 | noF].
-      + (* BFinal *)
+        assert (Hcw : b_cw sh = false) by (destruct (b_cw sh); [specialize (H8 eq_refl); discriminate H8|reflexivity]).
+        cbn [fst snd]. apply OInv_intro; unfold okbuf in *; proj_all;
+          [exact H2 | exact H3 | no0 | intros Hc; contradiction | exact H6 | noA
+          | intros Hc; congruence | exact H9].
+      + (* BFinal: Unlock() *)
         assert (Hl : b_lock sh = Some 0%nat) by (apply H4; right; right; reflexivity).
         assert (Hn1 : ~ incs1 p1) by (intros Hc; specialize (H5 Hc); congruence).
-        cbn [fst snd]. apply OInv_intro; proj_all;
-          [exact H1 | exact H2 | exact H3 | no0 | intros Hc; contradiction | exact H6
-          | intros _; apply H7; left; reflexivity].
+        assert (Hcw : b_cw sh = false) by (destruct (b_cw sh); [specialize (H8 eq_refl); discriminate H8|reflexivity]).
+        cbn [fst snd]. apply OInv_intro; unfold okbuf in *; proj_all;
+          [exact H2 | exact H3 | no0 | intros Hc; contradiction | exact H6
+          | intros _; apply H7; left; reflexivity | intros Hc; congruence | exact H9].
+      + (* BClose: close(done); tryCloseWrite(tunnelConn) — only now *)
+        cbn [fst snd]. apply OInv_intro; unfold okbuf in *; proj_all;
+          [exact H2 | exact H3 | no0 | exact H5 | exact H6
+          | intros _; apply H7; right; left; reflexivity | intros _; reflexivity | exact H9].
       + cbn [fst snd]. apply OInv_intro; assumption.
     - (* ticker *)
       unfold own_step. cbn [fst snd]. unfold tick_own.
       destruct p1; cbn [upd_nth].
       + destruct (b_lock sh) eqn:El; cbn [fst snd].
         * apply OInv_intro; try assumption; rewrite El; assumption.
-        * apply OInv_intro; proj_all;
-            [exact H1 | exact H2 | exact H3 | intros Hc; specialize (H4 Hc); congruence
-            | intros _; reflexivity | noT | exact H7].
+        * apply OInv_intro; unfold okbuf in *; proj_all;
+            [exact H2 | exact H3 | intros Hc; specialize (H4 Hc); congruence
+            | intros _; reflexivity | noT | exact H7 | exact H8 | exact H9].
       + (* BHave: take the slice, keep the lock *)
         cbn [fst snd]. apply OInv_intro;
-          [exact H1 | exact H2 | exact H3 | exact H4 | intros _; apply H5; left; reflexivity
-          | intros n Hx; injection Hx as <-; reflexivity | exact H7].
+          [exact H2 | exact H3 | exact H4 | intros _; apply H5; left; reflexivity
+          | intros n Hx; injection Hx as <-; reflexivity | exact H7 | exact H8 | exact H9].
       + (* BTaken n: the Write returns, still under the lock *)
         assert (Hl : b_lock sh = Some 1%nat) by (apply H5; right; left; now exists n).
         assert (Hn0 : ~ incs0 p0) by (intros Hc; specialize (H4 Hc); congruence).
-        rewrite (H6 n eq_refl). cbn [fst snd].
-        apply OInv_intro; proj_all;
-          [ lia | cbn [firstn]; rewrite app_nil_r; exact H2 | exact H3 | intros Hc; contradiction
+        rewrite (H6 n eq_refl).
+        assert (Hw : b_cw sh = false \/ b_pos sh = 0%nat).
+        { destruct (b_cw sh) eqn:Ec; [right|left; reflexivity].
+          specialize (H8 eq_refl). apply H7. right; right. exact H8. }
+        rewrite (write_n_ok (b_pos sh) sh Hw). cbn [bset b_werr]. rewrite H9. cbn [fst snd].
+        destruct H2 as [Hp Ho].
+        apply OInv_intro; unfold okbuf; proj_all;
+          [ split; [lia|cbn [firstn]; rewrite app_nil_r; exact Ho] | exact H3 | intros Hc; contradiction
           | intros _; exact Hl | noT
-          | intros Hc; destruct (H7 Hc) as [Hi _]; split; [exact Hi|reflexivity] ].
+          | intros Hc; destruct (H7 Hc) as [Hi _]; split; [exact Hi|reflexivity] | exact H8 | exact H9 ].
       + (* BUnlock *)
         assert (Hl : b_lock sh = Some 1%nat) by (apply H5; right; right; reflexivity).
         assert (Hn0 : ~ incs0 p0) by (intros Hc; specialize (H4 Hc); congruence).
-        cbn [fst snd]. apply OInv_intro; proj_all;
-          [exact H1 | exact H2 | exact H3 | intros Hc; contradiction | no1 | noT | exact H7].
+        cbn [fst snd]. apply OInv_intro; unfold okbuf in *; proj_all;
+          [exact H2 | exact H3 | intros Hc; contradiction | no1 | noT | exact H7 | exact H8 | exact H9].
+      + cbn [fst snd]. apply OInv_intro; assumption.
       + cbn [fst snd]. apply OInv_intro; assumption.
       + cbn [fst snd]. apply OInv_intro; assumption.
     - destruct i; cbn [nth_error]; apply OInv_intro; assumption.
@@ -172,24 +236,31 @@ Section OwnProofs.
 
   Lemma OInv_init : OInv (own_init all).
   Proof.
-    unfold own_init. apply OInv_intro; cbn [b_pos b_buf b_out b_seen b_inq b_lock length firstn app];
-      [lia | reflexivity | reflexivity | no0 | no1 | noT | noF].
+    unfold own_init. apply OInv_intro; unfold okbuf; cbn [b_pos b_buf b_out b_seen b_inq b_lock b_cw b_werr length firstn app];
+      [split; [lia|reflexivity] | reflexivity | no0 | no1 | noT | noA | intros Hx; discriminate Hx | reflexivity].
   Qed.
 
   Theorem own_all_schedules (sched : list nat) :
-    OInv (run bsh (nat * bpc) (own_step false BatchBuf) (own_init all) sched).
-  Proof. apply (inv_all_schedules bsh (nat * bpc) (own_step false BatchBuf) OInv OInv_step). apply OInv_init. Qed.
+    OInv (run bsh (nat * bpc) (own_step false false BatchBuf) (own_init all) sched).
+  Proof. apply (inv_all_schedules bsh (nat * bpc) (own_step false false BatchBuf) OInv OInv_step). apply OInv_init. Qed.
 
   (* consequences *)
   Lemma OInv_stream s : OInv s ->
     (exists rest_, encode_all (ev_dgrams (map EvD all)) = b_out (fst s) ++ rest_) /\
-    (forall p1, snd s = [(0%nat, BDone); (1%nat, p1)] -> b_out (fst s) = encode_all (ev_dgrams (map EvD all))).
+    (forall p1, snd s = [(0%nat, BDone); (1%nat, p1)] -> b_out (fst s) = encode_all (ev_dgrams (map EvD all))) /\
+    (* the final flush precedes the half-close: no tunnel Write is ever refused, and when the tunnel is half-closed
+       everything has already been consumed by it *)
+    b_werr (fst s) = false /\
+    (b_cw (fst s) = true -> b_out (fst s) = encode_all (ev_dgrams (map EvD all))).
   Proof.
-    intros (p0 & p1 & Hls & H1 & H2 & H3 & H4 & H5 & H6 & H7). rewrite <- encq_is_encode_all. split.
+    intros (p0 & p1 & Hls & [H1 H2] & H3 & H4 & H5 & H6 & H7 & H8 & H9). rewrite <- encq_is_encode_all.
+    assert (Hdone : p0 = BDone -> b_out (fst s) = encq all).
+    { intros ->. destruct (H7 (or_intror (or_intror eq_refl))) as [Hi Hp]. rewrite Hp in H2. cbn [firstn] in H2.
+      rewrite app_nil_r in H2. rewrite H2, H3, Hi. now rewrite app_nil_r. }
+    split; [|split; [|split; [exact H9|]]].
     - exists (firstn (b_pos (fst s)) (b_buf (fst s)) ++ encq (b_inq (fst s))).
       rewrite H3, encq_app, <- H2. now rewrite app_assoc.
-    - intros q Hs. rewrite Hls in Hs. injection Hs as -> _.
-      destruct (H7 (or_intror eq_refl)) as [Hi Hp]. rewrite Hp in H2. cbn [firstn] in H2.
-      rewrite app_nil_r in H2. rewrite H2, H3, Hi. now rewrite app_nil_r.
+    - intros q Hs. rewrite Hls in Hs. injection Hs as -> _. apply Hdone. reflexivity.
+    - intros Hc. apply Hdone. apply H8. exact Hc.
   Qed.
 End OwnProofs.
